@@ -24,6 +24,8 @@ CommOf(k) ==
     [] k = "fix"  -> [k |-> "fix",  a |-> R(1), b |-> Zero]
     [] k = "unit" -> [k |-> "unit", a |-> Rat(1, 4), b |-> Zero]
     [] k = "tier" -> [k |-> "tier", a |-> R(2), b |-> Rat(1, 4)]
+    [] k = "sell" -> [k |-> "sell", a |-> Rat(1, 100), b |-> Zero]
+    [] k = "buy"  -> [k |-> "buy",  a |-> Rat(1, 100), b |-> Zero]
     [] OTHER      -> [k |-> "prop", a |-> Rat(1, 100), b |-> Zero]
 
 Cfg(p) ==
